@@ -10,8 +10,8 @@ EVIDENCE_DIR = os.environ.get("LP_EVIDENCE_DIR", os.path.join(VERIF, "evidence")
 REPLAY_DIR = os.environ.get("LP_REPLAY_DIR", os.path.join(VERIF, "replays"))
 KNOWN = os.path.join(VERIF, "known_findings.json")
 
-QUICK = {"vest": 30, "reserve": 16, "deploy": 4, "life": 40, "fy": 16, "chunks": 8, "perm": 1, "alloc": 12, "timeline": 6}
-THOROUGH = {"vest": 300, "reserve": 200, "deploy": 40, "life": 600, "fy": 80, "chunks": 60, "perm": 8, "alloc": 120, "timeline": 60}
+QUICK = {"topup": 8, "vest": 30, "reserve": 16, "deploy": 4, "life": 40, "fy": 16, "chunks": 8, "perm": 1, "alloc": 12, "timeline": 6}
+THOROUGH = {"topup": 100, "vest": 300, "reserve": 200, "deploy": 40, "life": 600, "fy": 80, "chunks": 60, "perm": 8, "alloc": 120, "timeline": 60}
 
 
 def job_list(pid, tier, seed):
